@@ -502,6 +502,13 @@ def _await_descriptor_upload(tor_protocol, onion, progress, await_all_uploads):
     # caller can do "d = _await_descriptor_upload()", then add the
     # service.
     yield tor_protocol.add_event_listener('HS_DESC', hs_desc)
+
+    # no more events will arrive once the connection is gone
+    def connection_lost(fail):
+        if not uploaded.called:
+            uploaded.errback(fail)
+    if hasattr(tor_protocol, 'when_disconnected'):
+        tor_protocol.when_disconnected().addErrback(connection_lost)
     try:
         yield uploaded
     except Exception:
